@@ -1,5 +1,6 @@
 import Driver.Proto
 import CifModel.Model.Ladder
+import CifModel.Model.LadderMap
 /-
   family `ladder` (C17): allocation/free pattern of three library functions under one failed allocation.
     ladder dup <n> <k>                      dup_ustrings on n strings, k-th allocation fails (0 = none)
@@ -11,6 +12,11 @@ import CifModel.Model.Ladder
                                             r = respelled (original spelling kept in a copy); the code as it is
     ladder copychar <tshape…> <k>           cif_value_copy_char onto a value of shape <tshape> (built before the window)
     ladder deser [ <shape…> ] <k>           cif_value_deserialize of the blob of a list value (shapes without M0/M1)
+    ladder mapset <T|P> <n> <key>*n <key> <shape…|~> <k>   cif_value_set_item_by_key / cif_packet_set_item on a map that
+                                            holds the n keys (each with the value 'hi'), built before the window
+    ladder mapdel <T|P> <n> <key>*n <key> <keep 0|1> <k>   cif_value_remove_item_by_key / cif_packet_remove_item
+    ladder tclone T <n> <key>*n <shape…> <k>  cif_value_clone of a table whose n entries all have a value of <shape>
+                                            <key> = <orig-hex>[:<norm-hex>]; answers carry ` items=<n>` (entries afterwards)
     ladder names <n> <k>                    cif_loop_get_names on a stored loop with n item names (the code as it is:
                                             getNamesPinned)
   shape tokens: S (unknown/na) | C (char) | M0 | M1 (number without / with su) | [ shape* ]
@@ -75,7 +81,7 @@ def summaryW (rc : Nat) (base : Nat) (evs : List Ev) : String :=
   let frees := evs.filterMap (fun e => match e with | .free i => if i > base then some (i - base) else none | _ => none)
   let pfrees := (evs.filter (fun e => match e with | .free i => i ≤ base | _ => false)).length
   let live := allocs.filter (fun i => !frees.contains i)
-  s!"ld rc={if rc == OK then "0" else if rc == UNDEFINED then "U" else "E"} allocs={allocs.length} fails={showIds fails} frees={showIds frees} live={showIds live} pfrees={pfrees}"
+  s!"ld rc={if rc == OK then "0" else if rc == UNDEFINED then "U" else if rc == MEMORY_ERROR || rc == ERROR then "E" else toString rc} allocs={allocs.length} fails={showIds fails} frees={showIds frees} live={showIds live} pfrees={pfrees}"
 
 def summary (rc : Nat) (evs : List Ev) : String := summaryW rc 0 evs
 
@@ -83,6 +89,69 @@ def summary (rc : Nat) (evs : List Ev) : String := summaryW rc 0 evs
 def parseFlags (fl : String) : Option (List Bool) :=
   if fl == "-" then some [] else
   fl.toList.mapM (fun c => if c == 'n' then some false else if c == 'r' then some true else none)
+
+/-- `<orig-hex>[:<norm-hex>]` ↦ (original spelling, normalised key) -/
+def parseKey (t : String) : Option (List Nat × List Nat) :=
+  match t.splitOn ":" with
+  | [a] => do let k ← unhex a; pure (k, k)
+  | [a, b] => do let k ← unhex a; let n ← unhex b; pure (k, n)
+  | _ => none
+
+/-- the map that exists before the window: built from the empty state by the model's own (fault-free) cif_map_set_item,
+    every entry with a value of shape `sh` -/
+def buildMap (kind : MapKind) (sh : Shape) : List (List Nat × List Nat) → MapSt → St → Option (MapSt × St)
+  | [], m, s => some (m, s)
+  | (k, n) :: rest, m, s =>
+    let (r, s') := mapSet true 0 kind m k n (some sh) s
+    if r.rc == OK then buildMap kind sh rest r.map s' else none
+
+def parseKind (t : String) : Option MapKind := if t == "T" then some .table else if t == "P" then some .packet else none
+
+/-- rc=U: the map is left corrupt (undefined behaviour on its next use) -/
+def mapSummary (r : MapRes) (base : Nat) (evs : List Ev) : String :=
+  if r.corrupt then summaryW UNDEFINED base evs else summaryW r.rc base evs ++ s!" items={r.map.entries.length}"
+
+def handleMap (fixed : Bool) (op : String) (kindT : String) (nT : String) (rest : List String) : Option String := do
+  let kind ← parseKind kindT
+  let n ← nT.toNat?
+  if rest.length < n + 2 then none
+  let keys ← (rest.take n).mapM parseKey
+  let rest := rest.drop n
+  match op with
+  | "mapset" =>
+    match rest with
+    | keyT :: more => do
+      let (k, kn) ← parseKey keyT
+      let (val, r) ← (if more.head? == some "~" then some (none, more.drop 1)
+                      else (parseShape (more.length + 1) more).map (fun (sh, r) => (some sh, r)))
+      match r with
+      | [kT] => do
+        let f ← kT.toNat?
+        let (m0, s0) ← buildMap kind .chr keys {} {}
+        let (res, st) := mapSet fixed (if f = 0 then 0 else s0.count + f) kind m0 k kn val s0
+        pure (mapSummary res s0.count (st.evs.drop s0.evs.length))
+      | _ => none
+    | _ => none
+  | "mapdel" =>
+    match rest with
+    | [keyT, keepT, kT] => do
+      let (_, kn) ← parseKey keyT
+      let keep ← parseBool keepT
+      let f ← kT.toNat?
+      let (m0, s0) ← buildMap kind .chr keys {} {}
+      let (res, st) := mapRemove (if f = 0 then 0 else s0.count + f) kind m0 kn keep s0
+      pure (mapSummary res s0.count (st.evs.drop s0.evs.length))
+    | _ => none
+  | "tclone" => do
+    let (sh, r) ← parseShape (rest.length + 1) rest
+    match r with
+    | [kT] => do
+      let f ← kT.toNat?
+      -- the source table is not part of the window at all: only its entries' keys and shapes matter
+      let (res, _, st) := cloneTable fixed f (keys.map (fun (k, kn) => { keyStr := kn, origStr := k, shape := sh }))
+      pure (mapSummary res 0 st.evs)
+    | _ => none
+  | _ => none
 
 def handle : Handler
   | ["dup", n, k] => do
@@ -144,6 +213,11 @@ def handle : Handler
           let (rc, _, st) := deserialize k ds
           pure (summary rc st.evs)
       | _, _ => none
+  | "mapset" :: kind :: n :: rest => handleMap false "mapset" kind n rest       -- the code as it is
+  | "mapsetfixed" :: kind :: n :: rest => handleMap true "mapset" kind n rest   -- with the proposed repair
+  | "mapdel" :: kind :: n :: rest => handleMap true "mapdel" kind n rest
+  | "tclone" :: kind :: n :: rest => handleMap false "tclone" kind n rest
+  | "tclonefixed" :: kind :: n :: rest => handleMap true "tclone" kind n rest
   | "set" :: rest => do
       -- the target element is built first (fault-free clone of <tshape> from the empty state); the window starts after it
       let (tsh, r0) ← parseShape (rest.length + 1) rest
